@@ -41,6 +41,7 @@ ASSUMPTIONS = [
     "O13.2/O13.5 use a safety margin of 3 source + 3 destination pixels around the projected footprint, computed with affine/pyproj/numpy",
     "source pixel values never equal the fill value, except the planted pixels equal to the source nodata (35 % of runs with a source nodata)",
     "whole-world, polar and domain-edge pairs come from twelve fixed templates (GLOBAL_TEMPLATES) with drawn chunkings (D13g, D13h, D13j lived there; repaired)",
+    "hazard probe geobox_sanity_mismatch (recovered GeoBox of the chunked result vs the requested one, approximate, never deciding) fires on one-row / one-pixel destinations with a shear of 1e-10 (sliver placements): such a shear cannot be recovered from coordinate labels - C09's business, not this property's",
     "cross-CRS rasters are local (at most ~150 km across): on continental extents the per-chunk source-tile lookup approximates curved outlines too coarsely (C12's dependency completeness, not claimed) - see DESIGN 7.3",
 ]
 
